@@ -37,6 +37,7 @@ type Config struct {
 	Outside       []string
 	NoNative      bool
 	LazyFP        bool
+	NumTokens     bool // %d of a symbolic integer yields a one-element decimal-number token
 	FPAbstract    map[string]bool // float operations replaced by an arbitrary result (mul, div, sqrt, pow)
 	NoYield       []string // scheduling-point kinds (prefix match) that are not pre-emption points
 	ExpectPanic   bool
